@@ -372,7 +372,7 @@ def main(prop, tier='quick', seed=None, replay=None):
     t_start = time.time()
     seed = int(seed if seed is not None else os.environ.get('VERIF_SEED', '20260930'))
     mod = importlib.import_module('harness.props.' + prop)
-    known_entries = [k for k in load_known() if k.get('property') == prop]
+    known_entries = [k for k in load_known() if k.get('property') in getattr(mod, 'KNOWN_PROPS', [prop])]
     try:
         bad = audit()
         if bad:
@@ -516,6 +516,8 @@ def main(prop, tier='quick', seed=None, replay=None):
             'violations': len(violations) + len(extra['violations']) + (1 if (corrs and not violations) else 0),
         }
         ev['coverage'].update(extra.get('info', {}).get('coverage', {}))
+        if hasattr(mod, 'summarize'):
+            ev['coverage'].update(mod.summarize(recs))
         os.makedirs(os.path.join(ROOT, 'evidence'), exist_ok=True)
         with open(os.path.join(ROOT, 'evidence', prop + '.json'), 'w') as f:
             json.dump(ev, f, indent=1, default=str)
